@@ -66,6 +66,12 @@ def gen_cases(tier, seed):
     for i, opn in enumerate(STREAMING):
         if opn != 'concatenate':        # single-source pipelines only
             yield {'family': 'early_stop', 'op': opn, 'idx': 7000 + i, 'seed': seed}
+    # load(limit_rows=n): the rows after the n-th stay in the source
+    for i in range({'quick': 4, 'thorough': 24}[tier]):
+        yield {'family': 'limit_rows', 'op': 'load_limit_rows', 'idx': 8000 + i, 'seed': seed}
+    # a step that finishes its resource on its own (dumper, printer, stream) in front of a concatenate of several resources
+    for i, obs in enumerate(['dump_to_path', 'printer', 'stream', 'validate']):
+        yield {'family': 'observer_then_concatenate', 'op': 'concatenate_after_' + obs, 'obs': obs, 'idx': 9000 + i, 'seed': seed}
 
 
 def row_for(src, i, fields):
@@ -94,6 +100,8 @@ def run_case(case):
     sizes = [2000, 20000] + ([200000] if os.environ.get('VERIF_TIER') == 'thorough' and case['idx'] % 10 == 0 else [])
     if case['family'] == 'csv_file':
         return run_csv(case, rng, d, counters, cov, viol, sizes)
+    if case['family'] in ('limit_rows', 'observer_then_concatenate'):
+        return run_special(case, rng, d, counters, cov, viol, sizes)
     nsrc = rng.choice([1, 1, 2, 3]) if case['family'] == 'composition' else rng.choice([1, 2])
     tables = []
     for s in range(nsrc):
@@ -192,6 +200,60 @@ def run_case(case):
         return dict(nontrivial=False, violations=[], cov=cov, counters=counters,
                     inconclusive='pipeline failed: %s: %s; %s' % (type(c).__name__, str(c)[:200], gen.render(prog, 400)))
     return judge(case, prog, specs, sizes, res, counters, cov, viol)
+
+
+def run_special(case, rng, d, counters, cov, viol, sizes):
+    fam = case['family']
+    limit = rng.choice([1, 25, 150])
+    via_tuple = rng.random() < 0.5
+    prog = {'family': fam, 'limit_rows': limit, 'tuple_source': via_tuple} if fam == 'limit_rows' else \
+        {'family': fam, 'observer': case['obs']}
+    res = []
+    for N in sizes:
+        pulled = [0, 0]
+        stats = {'max_initial': 0, 'max_steady': 0, 'deliveries': 0, 'max_next_source_ahead': 0}
+
+        def g(j, N=N, pulled=pulled):
+            for i in range(N):
+                pulled[j] += 1
+                yield {'id': (j + 1) * BASE + i, 's': 'v%d' % (i % 5)}
+        fl = [{'name': 'id', 'type': 'integer'}, {'name': 's', 'type': 'string'}]
+
+        def sink(rows):
+            for row in rows:
+                stats['deliveries'] += 1
+                # rows taken from ALL sources that have not arrived here (nothing in these pipelines drops rows)
+                la = sum(pulled) - stats['deliveries']
+                stats['max_initial'] = max(stats['max_initial'], la)
+                if stats['deliveries'] > 200:
+                    stats['max_steady'] = max(stats['max_steady'], la)
+                yield row
+        if fam == 'limit_rows':
+            desc = {'resources': [{'name': 'r0', 'path': 'r0.csv', 'schema': {'fields': fl}}]}
+            src = d.load((desc, iter([g(0)])), limit_rows=limit) if via_tuple else d.load(g(0), limit_rows=limit)
+            steps = [src, d.add_field('z', 'integer', 1), sink]
+        else:
+            obs = {'dump_to_path': lambda: d.dump_to_path('oc_%d' % N), 'stream': lambda: d.stream(Null()),
+                   'printer': lambda: d.printer(header_print=lambda *a: None, table_print=lambda *a: None),
+                   'validate': lambda: d.validate()}[case['obs']]()
+            def src_(name, j):
+                return d.load(({'resources': [{'name': name, 'path': name + '.csv', 'schema': {'fields': copy.deepcopy(fl)}}]},
+                               [g(j)]), strip=False)
+            steps = [src_('a', 0), src_('b', 1), obs,
+                     d.concatenate({'id': [], 's': []}, target={'name': 'c', 'path': 'c.csv'}), sink]
+        try:
+            with boot.quiet():
+                d.Flow(*steps).process()
+        except Exception as e:
+            c = getattr(e, 'cause', e)
+            return dict(nontrivial=False, violations=[], cov=cov, counters=counters,
+                        inconclusive='pipeline failed: %s: %s' % (type(c).__name__, str(c)[:200]))
+        # what was read and never arrived counts, too (after the last delivery)
+        stats['max_initial'] = max(stats['max_initial'], sum(pulled) - stats['deliveries'])
+        stats['max_steady'] = max(stats['max_steady'], sum(pulled) - stats['deliveries'])
+        stats['pulled'] = sum(pulled)
+        res.append(stats)
+    return judge(case, prog, [], sizes, res, counters, cov, viol)
 
 
 def judge(case, prog, specs, sizes, res, counters, cov, viol):
